@@ -40,7 +40,11 @@ def stages(ctx):
     sd = [{"kind": "seed", "name": s} for s in seeds.all_names()]
     co = [{"kind": "collision", "pair": list(p)} for p in COLLIDING]
     an = [{"kind": "anon", "extra": k} for k in (1, 2, 3)]
-    return [("catalogue-nodes-x-4-contexts", el), ("seed-programs-v1-v2", sd), ("forced-fnv-collisions", co), ("types-derived-from-anonymous-types", an)]
+    if ctx.quick:
+        return [("catalogue-nodes-x-4-contexts", el), ("seed-programs-v1-v2", sd), ("forced-fnv-collisions", co), ("types-derived-from-anonymous-types", an)]
+    # thorough: the small stages first, then the catalogue in four disjoint quarters so that a deadline leaves completed bounds
+    return [("seed-programs-v1-v2", sd), ("forced-fnv-collisions", co), ("types-derived-from-anonymous-types", an)] + \
+           [("catalogue-nodes-x-4-contexts(nodes %d mod 4)" % k, el[k::4]) for k in range(4)]
 
 
 def _ids(ctx, path):
